@@ -73,7 +73,7 @@ WORKERS = min(6, vlib.NCPU)
 
 # ============================================================================ part 1: alerts
 
-MC_HOLD = ["MC_Alerts_n1_c0", "MC_Alerts_n2_c0", "MC_Alerts_n3_c0", "MC_Alerts_n1_c2", "MC_Alerts_n2_c2", "MC_Alerts_n3_c2",
+MC_HOLD = ["MC_Alerts_fail_c0", "MC_Alerts_fail_c2", "MC_Alerts_n1_c0", "MC_Alerts_n2_c0", "MC_Alerts_n3_c0", "MC_Alerts_n1_c2", "MC_Alerts_n2_c2", "MC_Alerts_n3_c2",
            "MC_Alerts_sil", "MC_Alerts_sil0"]
 MC_DIFF = {"MC_Alerts_edit": "code counts the Config-Modified history row in the window (candidate)",
            "MC_Alerts_short": "model mutant: window one row short", "MC_Alerts_long": "model mutant: window one row long"}
@@ -134,6 +134,8 @@ def alerts_behaviours(chk):
         plan.append(("Gen_Alerts_n%d_c2" % n if quick else "Gen_Alerts_n%d_c2_deep" % n, 300 if quick else 6000))
         plan.append(("Gen_Alerts_n%d_edit" % n, None if not quick else 120))
         plan.append(("Gen_Alerts_n%d_sil" % n, 200 if quick else 3000))
+        plan.append(("Gen_Alerts_n%d_fail" % n, 250 if quick else None))        # contact point unreachable at <= 2 evaluations
+        plan.append(("Gen_Alerts_n%d_fail_c2" % n, 150 if quick else 4000))
     plan.append(("Gen_Alerts_n2_edit2", 200 if quick else 2500))
     plan.append(("Gen_Alerts_n3_edit2", 150 if quick else None))
     gens = vlib.pmap(lambda p: vlib.tlc_generate("Gen_Alerts", p[0] + ".cfg", timeout=1200), plan, workers=4)
@@ -157,7 +159,7 @@ def run_alert_replay(behs, seed, tag="a"):
             for b in behs:
                 f.write(json.dumps({"id": b["id"], "n": b["n"], "cool": b["cool"], "sil": b["sil"],
                                     "seed": seed * 7919 + b["id"],
-                                    "steps": [{"a": s["a"], "c": s["c"]} for s in b["steps"]]}) + "\n")
+                                    "steps": [{"a": s["a"], "c": s["c"], "d": s.get("d", "ok")} for s in b["steps"]]}) + "\n")
         rc, out = vlib.go_test_inpkg("pkg/alerts/alertsHandler", [INPKG_TEST], "^TestVerifAlertsReplay$",
                                      env={"VERIF_ALERTS_IN": inp, "VERIF_ALERTS_OUT": outp}, timeout=3000)
         if rc != 0:
@@ -179,7 +181,8 @@ def judge(traces):
             for t in traces:
                 f.write(json.dumps({"id": t["id"], "n": t["n"], "cool": t["cool"],
                                     "steps": [{"a": s["a"], "eff": bool(s.get("eff")), "state": s.get("state", ""),
-                                               "sent": s["sent"]} for s in t["steps"]]}) + "\n")
+                                               "sent": s["sent"], "d": s.get("d", "ok"), "att": s.get("att", 0),
+                                               "neval": s.get("neval", 0), "hstate": s.get("hstate", "")} for s in t["steps"]]}) + "\n")
         r = vlib.run_tlc("Judge_Alerts", "Judge_Alerts.cfg", workers=1, sc=sc, timeout=1800)
         if r.rc != 0:
             raise vlib.Infra("Judge_Alerts failed: %s\n%s" % (r.error, r.out[-3000:]))
@@ -203,6 +206,10 @@ def classify_alert(trace, bad):
         if "edit" in window and bad["law"] == "Firing" and bad["state"] == "Pending":
             return "C20:alert:state:config-edit-row-counted-in-window"
         return "C20:alert:state:law-%s:got-%s" % (bad["law"], bad["state"])
+    if bad["kind"] == "history":
+        return "C20:alert:history:evaluation-not-recorded"
+    if bad["kind"] == "untried":
+        return "C20:alert:notif:law-%s:owed-notification-not-attempted" % bad["law"]
     return "C20:alert:notif:law-%s:sent-%s:not-admissible" % (bad["law"], bad["sent"])
 
 
@@ -233,7 +240,7 @@ def alerts_part(chk):
         t = byid[b["id"]]
         chk.replayed(1)
         rep = {"kind": "alert", "behaviour": {"n": b["n"], "cool": b["cool"], "sil": b["sil"], "src": b["src"],
-                                              "steps": [{"a": s["a"], "c": s["c"]} for s in b["steps"]]},
+                                              "steps": [{"a": s["a"], "c": s["c"], "d": s.get("d", "ok")} for s in b["steps"]]},
                "seed": chk.seed * 7919 + b["id"], "id": b["id"]}
         if t.get("err"):
             e = t["err"]
@@ -247,7 +254,7 @@ def alerts_part(chk):
             if s["a"] != "eval":
                 continue
             nev += 1
-            chk.count(("alert", b["n"], b["cool"], s.get("shape"), t["op"], s["c"], s.get("state"), s["sent"]), nontrivial=True)
+            chk.count(("alert", b["n"], b["cool"], s.get("shape"), t["op"], s["c"], s.get("d"), s.get("state"), s["sent"]), nontrivial=True)
             if not s["cmp_ok"]:
                 FIND.add("C20:alert:condition:%s:%s" % (t["op"], s["shape"]),
                               "condition '%s %s' on %s evaluated to %s, values satisfy it: %s" % (
@@ -257,10 +264,13 @@ def alerts_part(chk):
         bad = verdicts.get(b["id"])
         if bad:
             key = classify_alert(t, bad)
+            ob = t["steps"][bad["step"] - 1]
             what = ("N=%d cool-down=%d: after evaluations %s the law gives state %s / admissible notifications %s, the real alert is %s "
-                    "and sent %s (step %d of %s)" % (b["n"], b["cool"], ["T" if c else "F" for c in bad["conds"]], bad["law"],
-                                                      sorted(bad["adm"]), bad["state"], bad["sent"], bad["step"],
-                                                      [s["a"] + (":" + ("T" if s["c"] else "F") if s["a"] == "eval" else "") for s in b["steps"]]))
+                    "(newest history row %s, evaluation counter %s) and delivered %s (step %d of %s)%s" % (
+                        b["n"], b["cool"], ["T" if c else "F" for c in bad["conds"]], bad["law"],
+                        sorted(bad["adm"]), bad["state"], ob.get("hstate"), ob.get("neval"), bad["sent"], bad["step"],
+                        [s["a"] + (":" + ("T" if s["c"] else "F") + ("!down" if s.get("d") == "fail" else "") if s["a"] == "eval" else "")
+                         for s in b["steps"]], ("; handleAlertCondition returned: " + ob["herr"][:160]) if ob.get("herr") else ""))
             FIND.add(key, what, rep)
         elif exact and not any(s["a"] == "edit" for s in b["steps"]):
             # transcription drift: real code vs Alerts.tla (not a verdict).  Histories with a config edit are left out: there the
@@ -684,7 +694,9 @@ def replay(chk, path):
             vlib.rmtree(sc)
         v, _ = judge(traces)
         for s in traces[0]["steps"]:
-            print("  %-9s c=%-5s eff=%-5s state=%-8s sent=%-6s %s" % (s["a"], s["c"], s.get("eff"), s.get("state", ""), s["sent"], s.get("detail", "")))
+            print("  %-9s c=%-5s eff=%-5s deliv=%-4s state=%-8s hist=%-8s neval=%s sent=%-6s att=%s %s %s" % (
+                s["a"], s["c"], s.get("eff"), s.get("d"), s.get("state", ""), s.get("hstate", ""), s.get("neval"), s["sent"], s.get("att"),
+                s.get("detail", ""), s.get("herr", "")))
         bad = v.get(traces[0]["id"])
         print("law verdict:", json.dumps(bad) if bad else "no law failure reproduced")
         return 1 if bad or traces[0].get("err") else 0
